@@ -49,6 +49,9 @@ pub struct SimSys {
     /// constant reporting delay of the (client, server) integration in us; 0 = no integration on that side.
     /// Only the C18 integration phase uses it (the replay binding assumes no integration delays).
     pub report_delay_us: (u64, u64),
+    /// run the simulation on a thread with a 2 MiB stack (Rust's default for spawned threads) instead of the
+    /// worker's large one: recursion whose depth grows with the input is then a crash, not a silent success
+    pub small_stack: bool,
 }
 impl SimSys {
     pub fn new(trace: Vec<Pkt>, delay_ns: u64) -> Self {
@@ -69,6 +72,7 @@ impl SimSys {
             only_net: false,
             trace_style: 0,
             report_delay_us: (0, 0),
+            small_stack: false,
         }
     }
     pub fn trace_text(&self) -> String {
@@ -146,6 +150,7 @@ impl SimSys {
             "trace_style": self.trace_style,
             "trace_text": self.trace_text(),
             "reporting_delay_us": [self.report_delay_us.0, self.report_delay_us.1],
+            "small_stack": self.small_stack,
         })
     }
     pub fn from_json(v: &Value) -> Result<SimSys, String> {
@@ -169,6 +174,7 @@ impl SimSys {
         s.only_net = v["only_network_activity"].as_bool().unwrap_or(false);
         s.trace_style = v["trace_style"].as_u64().unwrap_or(0) as u8;
         s.report_delay_us = (v["reporting_delay_us"][0].as_u64().unwrap_or(0), v["reporting_delay_us"][1].as_u64().unwrap_or(0));
+        s.small_stack = v["small_stack"].as_bool().unwrap_or(false);
         Ok(s)
     }
 }
@@ -207,7 +213,18 @@ pub fn run_on(sys: &SimSys, sq: &SimQueue) -> Result<Run, String> {
     let mut q = sq.clone();
     let first = q.get_first_time().ok_or("empty trace")?;
     let args = sys.args();
-    let r = catch_unwind(AssertUnwindSafe(|| sim_advanced(&sys.client, &sys.server, &mut q, &args)));
+    let r = if sys.small_stack {
+        std::thread::scope(|sc| {
+            std::thread::Builder::new()
+                .stack_size(2 << 20)
+                .spawn_scoped(sc, || catch_unwind(AssertUnwindSafe(|| sim_advanced(&sys.client, &sys.server, &mut q, &args))))
+                .expect("spawn")
+                .join()
+                .unwrap_or_else(|e| Err(e))
+        })
+    } else {
+        catch_unwind(AssertUnwindSafe(|| sim_advanced(&sys.client, &sys.server, &mut q, &args)))
+    };
     match r {
         Ok(raw) => {
             let evs = to_evs(&raw, first);
@@ -401,6 +418,17 @@ pub fn s_library(level: usize) -> Vec<Gadget> {
         let mut r1: EnumMap<Event, Vec<Trans>> = enum_map! { _ => vec![] };
         r1[BlockingEnd] = vec![Trans(1, 1.0)];
         lib.push(Gadget { name: format!("pad{d}-reissued-on-BlockingEnd"), m: mk((1_000_000, 1.0, 0, 0.0), vec![st_map(t0.clone(), None, (None, None)), st_map(r1, Some(Action::SendPadding { bypass: true, replace: false, timeout: c(d), limit: Some(c(3.0)) }), (None, None))]), kind: 'r', zero_dur: false });
+    }
+    // a pending BlockOutgoing (timeout 3) withdrawn by Cancel or replaced by a padding action when a packet leaves
+    for (bp, rp) in [(true, true), (false, false)] {
+        let mut t0: EnumMap<Event, Vec<Trans>> = enum_map! { _ => vec![] };
+        t0[NormalSent] = vec![Trans(1, 1.0)];
+        let mut t1: EnumMap<Event, Vec<Trans>> = enum_map! { _ => vec![] };
+        t1[TunnelSent] = vec![Trans(2, 1.0)];
+        let t2: EnumMap<Event, Vec<Trans>> = enum_map! { _ => vec![] };
+        let blk = Action::BlockOutgoing { bypass: bp, replace: rp, timeout: c(3.0), duration: c(2.0), limit: None };
+        lib.push(Gadget { name: format!("blk3(by{},rp{})-cancelled-by-TunnelSent", bp as u8, rp as u8), m: mk((1_000_000, 1.0, 1_000_000_000, 1.0), vec![st_map(t0.clone(), None, (None, None)), st_map(t1.clone(), Some(blk), (None, None)), st_map(t2.clone(), Some(Action::Cancel { timer: Timer::Action }), (None, None))]), kind: 'c', zero_dur: false });
+        lib.push(Gadget { name: format!("blk3(by{},rp{})-replaced-by-padding-on-TunnelSent", bp as u8, rp as u8), m: mk((1_000_000, 1.0, 1_000_000_000, 1.0), vec![st_map(t0.clone(), None, (None, None)), st_map(t1.clone(), Some(blk), (None, None)), st_map(t2.clone(), Some(Action::SendPadding { bypass: false, replace: false, timeout: c(5.0), limit: None }), (None, None))]), kind: 'r', zero_dur: false });
     }
     // internal timers
     let tdurs: &[f64] = if level == 0 { &[0.0, 1.0, 2.0] } else { &[0.0, 1.0, 2.0, 5.0] };
